@@ -162,6 +162,14 @@ def replay(case):
                         res = [('hocur:rank', 'ranks %r exceed the requested %d' % (h.ranks, m))]
                 except Exception as e:
                     res = [('hocur:exception:%s' % type(e).__name__, 'hocur raised %r' % (e,))]
+                if res and res[0][0] == 'hocur:exception:LinAlgError' and not candidates_deficient(want, m, mult):
+                    # classifier of known finding F26: the requested rank is strictly above the true rank of an unfolding, the
+                    # cross matrix of that bond is singular and its inversion raises
+                    dims_ = list(want.shape)
+                    tr = [int(np.linalg.matrix_rank(want.reshape(int(np.prod(dims_[:b_])), -1))) for b_ in range(1, len(dims_))]
+                    if min(tr) < m:
+                        res = [('hocur:rank-above-true-rank', 'HOCUR with ranks=%d raises LinAlgError: the true ranks are %r, the cross matrix of a bond '
+                                'with smaller true rank is singular; data %r' % (m, tr, exp['x']))]
                 if res and res[0][0] != 'hocur:rank' and candidates_deficient(want, m, mult):
                     res = [('hocur:candidates-deficient', 'HOCUR with ranks=%d (>= true ranks) does not reproduce the tensor: the initial '
                             'candidate columns do not span an unfolding; data %r; %s' % (m, exp['x'], res[0][1]))]
